@@ -174,7 +174,22 @@ def run(ctx):
     # located in its result by their values (not by position or field name) and replaced by opaque ones
     from ptstat import algebra as _alg_
     from ptstat.symlib import NTuple as _NT
-    real = I.call(I.global_name(*DH.split(".", 1)), [mol], dict(kw))
+    # (the helper's own signature is its business: its real result is observed during a public call)
+    _orig = I.global_name(*DH.split(".", 1))
+    _seen = []
+
+    def _spy(I_, a_, k_):
+        r_ = I_.call_closure(_orig, list(a_), dict(k_))
+        _seen.append(r_)
+        return r_
+    I.stubs[DH] = _spy
+    try:
+        I.call(dsld, [mol], dict(kw, volume_fraction=sp.Integer(1), D2O_fraction=d))
+    finally:
+        del I.stubs[DH]
+    if not _seen:
+        raise AnalysisError(f"{DH} is not reached from D2O_sld")
+    real = _seen[0]
     refs = {"H2O": H2O, "D2O": D2O, "Hform": substituted(sp.Integer(0)), "Dform": substituted(sp.Integer(1))}
     found = {}
 
